@@ -32,6 +32,15 @@ func ShutDown(
 		return err
 	}
 
+	// authorise first, as Kill does: the refresh below is persisted by callers that answer
+	// an already shut down provider with success
+	var errCode = "shutdown_" + p.Type().String() + "_failed"
+	if err := smartcontractinterface.AuthorizeWithOwner(errCode, func() bool {
+		return ownerId == clientId || clientId == sp.GetSettings().DelegateWallet
+	}); err != nil {
+		return err
+	}
+
 	if p.IsKilled() || p.IsShutDown() {
 		if refreshProvider != nil {
 			err = refreshProvider(req)
@@ -50,13 +59,6 @@ func ShutDown(
 	}
 
 	if err = sp.Save(p.Type(), req.ID, balances); err != nil {
-		return err
-	}
-
-	var errCode = "shutdown_" + p.Type().String() + "_failed"
-	if err := smartcontractinterface.AuthorizeWithOwner(errCode, func() bool {
-		return ownerId == clientId || clientId == sp.GetSettings().DelegateWallet
-	}); err != nil {
 		return err
 	}
 
